@@ -63,3 +63,12 @@ package election
 //@   props C03
 //@   ensures closed(l)
 //@   modifies l.expireTime.v
+
+// The keep-alive worker's inner request (one goroutine per tick, verified on its own): the local deadline handed to the
+// lease is computed from a clock reading taken BEFORE the keep-alive request was sent, plus the TTL the server granted
+// - never from the time the reply arrived (the server may have renewed the lease a full round trip earlier; this is
+// the conservative local expiry that Leadership.Check relies on, see the clock-rate assumption of C03).
+//@ func (*lease).keepAliveWorker$1$1
+//@   props C03
+//@   at Add 1 assert [deadline-counts-from-before-the-request] unixnano(recv) <= kaSentAt[0] && count("KeepAliveOnce") == 1
+//@   modifies *
